@@ -170,11 +170,12 @@ def run(ctx: core.Run):
     ctx.prove(["PsdVerif.Props.C03", "PsdVerif.Props.C03Pixels", "PsdVerif.Props.C03Creation"])
     import c03_payload
     recorder = c03_payload.Recorder().install()      # every file the skeleton walker accepts goes to the payload walkers too
+    ctx._payload_recorder = recorder
     try:
         _run_rest(ctx, tables, creation, t0, c03_modes, _logging, _lvl)
+        c03_payload.run(ctx, cc.fixtures(), recorder)
     finally:
         recorder.remove()
-    c03_payload.run(ctx, cc.fixtures(), recorder)
 
 
 def _run_rest(ctx, tables, creation, t0, c03_modes, _logging, _lvl):
@@ -364,7 +365,16 @@ def _run_rest(ctx, tables, creation, t0, c03_modes, _logging, _lvl):
         ctx.recheck(["PsdVerif.Props.C03", "PsdVerif.Props.C03Pixels", "PsdVerif.Props.C03Creation"])
     # ---- the written-count clause on type-directed payload variants; more writer entry points (deep documents with
     # re-encoded channels, documents with extra channels edited then saved)
-    __import__("payload_gen").run_c03(ctx)
+    # (the payload walkers take the payload-gen instances through c03_payload.run_generated, which keeps the instances the
+    # format can hold: not through the recorder)
+    c03_payload_recorder = getattr(ctx, "_payload_recorder", None)
+    if c03_payload_recorder is not None:
+        c03_payload_recorder.enabled = False
+    try:
+        __import__("payload_gen").run_c03(ctx)
+    finally:
+        if c03_payload_recorder is not None:
+            c03_payload_recorder.enabled = True
     __import__("c03_writers").run(ctx, fx_all)
     # ---- every creation entry point x every mode it accepts x depth x compression x PSD/PSB
     t1 = time.time()
